@@ -27,6 +27,11 @@ VARIANT_OF = {IP + "Template": {"Template"}, IP + "OptionsTemplate": {"OptionsTe
 def run(ctx, env):
     prog = env.prog("default")
     an = An(prog)
+    ctx.rule("R10.5", "IPFIX templates: every parsed template reaches the cache by an overwriting write on every path, and the template reported in the result is the parsed one (shared with C06 R6.8)")
+    ctx.rule("R10.6", "the remainder returned by the record decoder (it becomes padding) advances once per complete record, never inside a nested per-field repetition")
+    reexport.cursor_atomicity_rule(ctx, prog, an, "R10.6", "variable_versions::ipfix::Data::parse_be")
+    from . import c06 as _c06
+    _c06.rule_template_reaches_cache(ctx, prog, an, "R10.5", only_adt="variable_versions::ipfix::IPFixParser")
     lay = Layouts(prog, an)
     ctx.rule("R10.0", "every wire-bearing field the IPFIX parser fills is emitted by IPFix::to_be_bytes under the matching set kind, in wire order, with the parsed width; derived fields are not emitted")
     ctx.rule("R10.1", "stored field = wire value: every wire-bearing struct field is the identity image of a parser result (no arithmetic / replacement after parsing)")
